@@ -2,12 +2,14 @@
    Statements only; proofs in Proofs/KeepGoing.v.  The aggregation (nothing is dropped or short-circuited, over the whole tree and the trailing
    missing-directory pass) is proved for all inputs; within one directory the handler is invoked exactly for
    the items that do not verify, once each, in order (C07_directory_log with C01_items_exactly: every name is
-   an item at most once).  PARTIAL: "exactly once per offending path" across directories of the whole tree is
-   carried by the correspondence engine, which compares the complete call log. *)
+   an item at most once); and over the whole tree every handler invocation is justified by a failed check of that very
+   path, with exactly the differences handed over (C07_only_offending_reported: "for no other path").  PARTIAL: that two
+   different directory visits never report one path (distinctness of the joined paths) is carried by the correspondence
+   engine, which compares the complete ordered call log. *)
 From Coq Require Import List NArith ZArith.
 From Gemato Require Import Py.PyStr Py.PyPath Gen.Tables Model.Entry Model.Text Model.OpenPGP Model.Hash
   Model.FS Model.Verify Model.Loader.
-From Gemato Require Import Proofs.KeepGoing Proofs.DirSpec.
+From Gemato Require Import Proofs.KeepGoing Proofs.DirSpec Proofs.OnlyOffending.
 Import ListNotations.
 Open Scope N_scope.
 
@@ -37,3 +39,13 @@ Proof.
   eapply verify_items_log; eassumption.
 Qed.
 Print Assumptions C07_directory_log.
+
+(* "for no other path": every invocation (relative path, differences) in the log of the whole scan - the walk and the trailing
+   pass over entries of directories that were not found - stems from verify_path answering "does not match" with these
+   differences, for the system path that names the same object (grown by the same names from (root/path, path)), or for
+   root/relative-path in the trailing pass *)
+Theorem C07_only_offending_reported : forall (L : hashlib) decompress pgp w l path pol lm l' b log,
+  assert_directory_verifies L decompress pgp w l path pol lm = Ok (l', b, log) ->
+  Forall (justified L w (mk_vctx (l_top l') (l_dev l') pol lm) path) log.
+Proof. exact only_offending_reported. Qed.
+Print Assumptions C07_only_offending_reported.
